@@ -63,6 +63,12 @@ class ScriptLayer(layer.Layer):
                     yield from c.handle_event(event)
                 self.log.append(("end", "S"))
                 return
+            if isinstance(event, events.ConnectionClosed):
+                self.log.append(("start", "X"))
+                for c in self.children:
+                    yield from c.handle_event(event)
+                self.log.append(("end", "X"))
+                return
             if isinstance(event, events.CommandCompleted):
                 owner = w["owner"].get(id(event.command))
                 if owner is self:
@@ -168,6 +174,11 @@ def run_real(case):
             feed(events.DataReceived(ctx.client, bytes([n_ev])))
             delivered.append(n_ev)
             n_ev += 1
+        elif act[0] == "close":
+            if stack == "nextlayer" and "X" not in delivered:
+                # the *server* side closes while the protocol may still be undecided
+                feed(events.ConnectionClosed(ctx.server))
+                delivered.append("X")
         elif outstanding:
             complete(outstanding[act[1] % len(outstanding)])
     guard = 0
@@ -323,6 +334,8 @@ def build(rnd):
     rnd.shuffle(sched)
     case = {"stack": stack, "scripts": scripts, "schedule": sched}
     if stack == "nextlayer":
+        if rnd.random() < 0.6:
+            sched.insert(rnd.randint(0, len(sched)), ["close"])
         case["pick_at"] = rnd.randint(1, 3)
         case["ask_on_start"] = rnd.random() < 0.5
     return case
